@@ -139,7 +139,13 @@ fn mk(init: Init, clients: Vec<Vec<T>>, key: &[u8], other: &[u8], keys: Vec<Vec<
             .collect(),
         policy,
         shards: 2,
+        tag: "",
     }
+}
+
+fn tagged(mut p: Program, tag: &'static str) -> Program {
+    p.tag = tag;
+    p
 }
 
 const INITS: [Init; 3] = [Init::Absent, Init::Present, Init::Expired];
@@ -586,6 +592,35 @@ pub fn c15_families(tier: Tier) -> Vec<Family> {
         p.push(mk(Init::Expired, prog, K, K, keys.clone(), Policy::Random(4000)));
     }
     fams.push(Family { name: "expired-item-met-concurrently".into(), programs: p, opts: o });
+    // stores that have to evict (the counter is above the limit when they arrive), racing each other
+    // and racing deletes of the records they may pick as victims, every victim choice: a record
+    // leaves the store once and is subtracted once, whoever takes it out
+    let (same, _) = sibling_keys(K);
+    let keys = vec![K.to_vec(), same.clone()];
+    let mut p = vec![];
+    for prog in [
+        vec![vec![T::SetNew], vec![T::SetNew]],
+        vec![vec![T::SetNew], vec![T::Del]],
+        vec![vec![T::SetNew], vec![T::DelOther]],
+        vec![vec![T::SetNew], vec![T::Del, T::DelOther]],
+        vec![vec![T::SetNew], vec![T::SetNew], vec![T::Del]],
+    ] {
+        p.push(tagged(mk(Init::Present, prog, K, &same, keys.clone(), Policy::Random(100)), "evicting/2-records"));
+    }
+    fams.push(Family { name: "evicting-store-vs-store-or-delete".into(), programs: p, opts: SchedOpts { max_bound: if tier == Tier::Quick { 2 } else { 3 }, ..o } });
+    // the same with more records than the evictions can take, so that nobody meets an empty store
+    let (same, diff) = sibling_keys(K);
+    let keys = vec![K.to_vec(), same.clone(), diff.clone(), b"o99".to_vec()];
+    let mut p = vec![];
+    for prog in [
+        vec![vec![T::SetNew], vec![T::SetNew]],
+        vec![vec![T::SetNew], vec![T::Del]],
+        vec![vec![T::SetNew], vec![T::DelOther]],
+        vec![vec![T::SetNew], vec![T::Del, T::DelOther]],
+    ] {
+        p.push(tagged(mk(Init::Present, prog, K, &same, keys.clone(), Policy::Random(200)), "evicting/4-records"));
+    }
+    fams.push(Family { name: "evicting-store-vs-store-or-delete/4-records".into(), programs: p, opts: SchedOpts { max_bound: 2, ..o } });
     fams
 }
 
